@@ -124,6 +124,22 @@ CLAIMED = {
         note="A4 lru_cache semantics; eviction is irrelevant to soundness; known findings D16 (Parameter root through "
              "_compile_cached), D1",
         design="6 C14"),
+    "C03": dict(
+        text="Row contract ROW(e, V): every entry k of a Jacobian row is a well-formed tree whose value at every regular point is "
+             "d[[e]]/dV[k], with no variable that e lacks. Proved by symbolic execution of the real code for the jacobian_row "
+             "overrides of BinaryOp, VectorSum, DotProduct, LinearCombination, VectorPowerSum and VectorUnarySum (dicts keyed by "
+             "Variables and the append loops are given position-function / list specifications), for compute_jacobian (1 and 2 "
+             "expressions), _is_scaled_variable_pattern (loop invariant), compile_gradient (general path) and compile_jacobian for "
+             "a single expression on all four paths (vectorised sums, constant rows, uniformly scaled row, general double loop "
+             "inside the returned closure). The callable's entry k equals the partial derivative wrt V[k] for any variable list "
+             "V (any order, any superset), at every point where e is regular for V[k] and the compiled derivative tree is inside "
+             "its domain, at call-time parameter values. All inputs, no bound.",
+        note="A1 real arithmetic: outside the domain of a derivative tree NumPy yields inf/nan (C19's subject), so the domain "
+             "hypothesis DOMD/DOMJ is part of 'regular point'; A6 distinct names inside a vector; variable lists with distinct "
+             "names. Stated but not proved (bounded stand-in native/bounded_jacobian.py, never counted as proved): "
+             "QuadraticForm.jacobian_row, MatrixSum.jacobian_row, _compile_vectorized_power_gradient, "
+             "_compile_vectorized_unary_gradient, compile_jacobian for 2+ expressions; lemmas covers<->occ are in the Lean table",
+        design="6 C03"),
     "C15": dict(
         text="Every iterative routine shares the contract of its recursive twin (same clauses, same spec functions), so callers "
              "(gradient, compile_expression, compute_degree, get_all_variables) are proved against one contract whichever twin runs, "
